@@ -24,6 +24,23 @@ def population(tier, seed):
         g = gen.lr1_not_lalr(fam_rng, i)
         g["id"] = "xf%05d" % i
         fams.append(g)
+    # grammars with the error terminal `!` (an ordinary terminal for the construction; conflicts on it count)
+    import core
+    recs = []
+    for i in range(120 if tier == "quick" else 1500):
+        r = fam_rng.random()
+        if r < 0.35:
+            g = gen.recovery_shapes(fam_rng, i)
+        else:
+            g = core.add_recovery(gen.random_grammar(fam_rng, i, max_nt=3, max_t=3, max_prods=6, max_rhs=3), fam_rng)
+        if fam_rng.random() < 0.3:      # `!` where it competes with a reduction
+            nt = fam_rng.choice(g["nts"])
+            base = fam_rng.choice([p for p in g["prods"] if p["lhs"] == nt] or g["prods"])
+            g["prods"] = g["prods"] + [{"lhs": base["lhs"], "rhs": list(base["rhs"]) + ["error"]}]
+        g["id"] = "xr%05d" % i
+        g.pop("recshape", None)
+        recs.append(g)
+    fams += recs
     if tier == "quick":
         pop = list(ss)
         pop += gen.random_population(seed, 300)
